@@ -79,6 +79,11 @@ def oracle(case, out):
     if s is None:
         return "malformed result %r" % (out,)
     _, flags = s
+    (fb, ib), (fc, _), (fd, id_) = flags
+    if fb == 0 and fd == 0 and fc == 1 and ib == id_:
+        _, name = op_at(case, ib)
+        return ("compio on io_uring (runs A and C, the kernel's ring) answers differently from the syscalls "
+                "(run B polling driver and run D the OS's own calls) at %s" % name)
     for which, (flag, idx) in enumerate(flags):
         if flag != 1:
             _, name = op_at(case, idx)
